@@ -138,7 +138,9 @@ Qed.
 
 Lemma compile_op_vk : forall c o, Forall ev_vk (cl_vis (fst (compile_op c o))).
 Proof.
-  intros c o. destruct o as [i v|i v|i|sd].
+  intros c o. destruct o as [i v|i v|i|sd|n];
+    [| | | |cbn [compile_op]; destruct (isSomeV (get KMark c)); cbn [fst];
+            [|rewrite cl_vis_app, cl_vis_hits]; repeat constructor].
   - cbn [compile_op]. destruct (is_nil i); [repeat constructor|].
     destruct (get (KVal i) c); repeat constructor. intros w [<-|[]]. reflexivity.
   - cbn [compile_op]. destruct (get (KVal i) c); repeat constructor. intros w [<-|[]]. reflexivity.
